@@ -48,7 +48,7 @@ theorem call_reconnect (cfg : Cfg) (ie : Bool) (c : Call) (sc : Script) (h : sc.
     (hs : sends cfg c = true) :
     call cfg ie false c sc = { call cfg ie true c sc with connected := true } := by
   rcases shape cfg c with ⟨res, hcall⟩ | ⟨verb, cmds, nr, f, hcall, -, -, -⟩ | ⟨cmds, nr, tok, f, hcall, -, -, -, -⟩ |
-      ⟨kind, cmd, wanted, g, hcall, -⟩ | hq
+      ⟨kind, cmd, wanted, g, hcall, -⟩ | hq | ⟨gr, hsd⟩
   · rw [sends_of_silent hcall] at hs; cases hs
   · rw [hcall, hcall, exchangeStore_reconnect _ _ _ _ h, mapOut_with_connected]
   · rw [hcall, hcall, exchangeMisc_reconnect _ _ _ _ h, mapOut_with_connected]
@@ -56,4 +56,7 @@ theorem call_reconnect (cfg : Cfg) (ie : Bool) (c : Call) (sc : Script) (h : sc.
   · subst hq
     simp only [call]
     rw [exchangeMisc_reconnect _ _ _ _ h]
+  · subst hsd
+    rw [call_shutdown, call_shutdown, exchangeMisc_reconnect _ _ _ _ h, mapOut_with_connected,
+      swallowClose_with_connected]
 end Client
